@@ -270,7 +270,9 @@ Definition consume (ctx : tctx) (prev : option char) (s : str) : cres * tctx :=
     white_space s)))) in
   match first with
   | CNone =>
-      let '(v, n, e) := lit (cquote ctx) (cattr ctx) (cexpr ctx) (cexpr ctx) prev false s in
+      (* expression_start = min(ctx['expression'], 1): text starts at depth 1, so a literal resumed inside nested
+         braces (after `$`, a field ...) takes the inner `}` as text (repaired) *)
+      let '(v, n, e) := lit (cquote ctx) (cattr ctx) (Z.min (cexpr ctx) 1) (cexpr ctx) prev false s in
       match n with
       | S _ => (CTok (TLiteral v) n, mkCtx (cgroup ctx) (cattr ctx) e (cquote ctx))
       | O =>
